@@ -101,6 +101,17 @@ def oracle(ck, extended):
         elif r < 0.5: rr -= 6
         elif r < 0.6: oo -= 6; rr -= 6
         rt.guard(ck, oracle_layout, ck, filt, gfilt, x, J, oo, rr)
+    # batches and channel counts above every blocking threshold (gen.scale_shapes_2d: more than 64 slices with N >= 2, more than
+    # 64 channels, tall / wide images) across ALL thirty layouts in turn, and with masks
+    big = [shp for shp in gen.scale_shapes_2d(ck.tier) if shp[0] * shp[1] > 1] + [(1, 1, 520, 6), (1, 1, 6, 516)]
+    for k, (o, ri) in enumerate(LAYOUTS):
+        shp = big[k % len(big)]
+        filt = dt_filters(rng); gfilt = dt_filters(rng)
+        rt.guard(ck, oracle_layout, ck, filt, gfilt, gen.int_tensor(rng, shp, 3), 1 + k % 3, o, ri)
+    for k, shp in enumerate(big[:4] if q else big):
+        filt = dt_filters(rng); J = 2 + k % 2
+        rt.guard(ck, oracle_masks, ck, filt, gen.int_tensor(rng, shp, 3), J, (k * 5 + 1) % (2 ** J), (k * 3 + 2) % (2 ** J))
+        rt.guard(ck, oracle_prefix, ck, filt, gen.int_tensor(rng, shp, 3), J)
     for J in (1, 2, 3) if q else (1, 2, 3, 4):
         filt = dt_filters(rng)
         x = gen.int_tensor(rng, (1, 2, rng.randint(2, 20), rng.randint(2, 20)), 3)
